@@ -4,6 +4,7 @@
 cd /verif
 for d in seeded/C*-*; do
   prop=$(basename $d | cut -d- -f1)
+  if grep -q '"obsolete"' /verif/$d/meta.json; then echo "$(basename $d): obsolete (neutralised by a fix, see meta.json)"; continue; fi
   out=$(SEEDS="${SEEDS:-1 2}" tools/tryseed.sh /verif/$d/patch.diff $prop 2>&1)
   caught=$(echo "$out" | grep -c "rc=1")
   total=$(echo "$out" | grep -c "rc=")
